@@ -100,6 +100,10 @@ type Opts struct {
 	// Journal, if set, is called with the forced prefix before every execution
 	// (crash forensics for child processes: a Go fatal error cannot be recovered).
 	Journal func(forced []int)
+	// StopAfter: stop exploring once this many failures whose class satisfies
+	// Unknown (nil = every class) were seen; the run is then not exhaustive.
+	StopAfter int
+	Unknown   func(class string) bool
 }
 
 // Stats is what an exploration measured.
@@ -132,6 +136,7 @@ type explorer struct {
 	failMu                                      sync.Mutex
 	fails                                       []Failure
 	classCount                                  map[string]int64
+	unknown                                     int
 	herr                                        error
 	deadline                                    time.Time
 	started                                     []atomic.Int64
@@ -368,6 +373,13 @@ func (e *explorer) runOne(c *Ctx, forced []int) {
 		e.failCount.Add(int64(len(c.fails)))
 		e.failMu.Lock()
 		for _, f := range c.fails {
+			if e.o.StopAfter > 0 && (e.o.Unknown == nil || e.o.Unknown(f.Class)) {
+				e.unknown++
+				if e.unknown >= e.o.StopAfter {
+					e.timedOut.Store(true)
+					e.stop.Store(true)
+				}
+			}
 			e.classCount[f.Class]++
 			if len(e.fails) < e.o.MaxFails || !classSeen(e.fails, f.Class) {
 				f.Choices = append([]int(nil), c.trail...)
